@@ -17,10 +17,11 @@
 //   C06:lost         after the final drain received == accepted, except for
 //                    what a send-buffer SHRINK may discard (C18: "only as
 //                    many as no longer fit")
-// Scenarios: (1) letter sequences PUSH <-inproc-> 2 nng PULL sockets,
-// (2) the same against two raw PULL peers on socket:// (big and tiny kernel
-// buffer), (3) schedule exploration of a blocking send racing with a puller
-// becoming ready.
+// Scenarios: (1) letter sequences PUSH <-inproc-> 2 nng PULL sockets (from the
+// initial state, from seeded saturated states, and with pullers that connect
+// late), (2) the same against two raw PULL peers on socket:// (big and tiny
+// kernel buffer), (3) schedule exploration of blocking senders racing with a
+// puller becoming ready (receiving / dialing).
 #define _GNU_SOURCE
 #include "vpeer.h"
 #include "vs.h"
@@ -865,13 +866,14 @@ main(int argc, char **argv)
 
 	vx_note("alphabet",
 	    "%d letters: send(tag,NONBLOCK) recvA recvB asend(aio, 10 ms timeout, "
-	    "2 slots) sendbuf(0|1|2) sleep(20 ms); 'inproc-core' uses the first "
-	    "%d (no sleep, no sendbuf 2, initial sendbuf 1); seeded prefixes: "
-	    "pipeline full with sendbuf 0 / 2, two waiting senders; 'late' = the "
-	    "pullers dial at their first receive letter (core alphabet); raw = two raw "
-	    "PULL peers on socket:// (default and minimal SO_SNDBUF with 3000-byte "
-	    "bodies); every history ends with a final drain",
+	    "2 slots) sendbuf0 sendbuf1 sleep(20 ms) sendbuf2; 'core'/'late' use "
+	    "the first %d, initial sendbuf 1; final drain after every history",
 	    L_N, L_CORE);
+	vx_note("scenarios",
+	    "inproc: PUSH + 2 nng PULL; seeded prefixes full0/full2 (pipeline "
+	    "full, sendbuf 0/2), waiters (2 blocked aio senders); late: pullers "
+	    "dial at their first receive; raw: 2 raw PULL peers on socket://, "
+	    "tinybuf = minimal SO_SNDBUF + 3000-byte bodies");
 	vx_note("depths", "%s (thorough depths are chosen from the measured "
 	    "execution rate so that the tier stays under ~%d s)", g_depths,
 	    (int) g_cap);
